@@ -116,7 +116,7 @@ theorem newline_core {src : List Char} {m : Srcmap} {lo pos : Nat} {cs out : Lis
         simp
       · rw [byteLen_append]; omega
       · rw [byteLen_replicate_space]; omega
-    have hline := translate_same_line m hm.wf (pos - tailSpaces last.content) pos
+    have hline := translate_same_line m hm.wf hm.mono (pos - tailSpaces last.content) pos
       (by omega) (no_key_inside hm.lf hsp (space_not_lf _)) rx hi0 e1 hhi0
     have hstart : start ≤ pos - tailSpaces last.content := by omega
     have hxsrx := tr_mono hm hstart hxs e1
